@@ -77,6 +77,8 @@ def strategy(tier):
             "comments": draw(st.lists(st.integers(0, nrows + 1), max_size=3)),
             "meta_pos": draw(st.lists(st.integers(0, nrows + 1), min_size=4, max_size=4)),
             "permute_cols": draw(st.booleans()),
+            # numbers used in the e<member> column names (taken from the front): need not start at 0 or be contiguous
+            "member_ids": draw(st.sampled_from([[0, 1, 2, 3], [0, 1, 2, 3], [1, 2, 3, 4], [1, 2, 4, 7], [4, 1, 2, 0], [10, 3, 7, 5]])),
         }
         return {"spec": spec, "style": style}
     return s()
@@ -155,6 +157,8 @@ def render(spec, style):
     for nm in sorted((d.get("other") or {}).keys()):
         data_cols.append(("other", nm))
 
+    member_ids = list((style.get("member_ids") or [0, 1, 2, 3]))[:d.get("members", 0) or 0]
+
     def col_name(kind, k):
         if kind in ("obs", "fcst", "pit"):
             return kind
@@ -163,7 +167,7 @@ def render(spec, style):
         if kind == "qs":
             return "q%g" % d["quantiles"][k]
         if kind == "ens":
-            return "e%d" % k
+            return "e%d" % member_ids[k]
         return k
     header += [col_name(k, i) for k, i in data_cols]
     ncoord = len(header) - len(data_cols)
@@ -247,7 +251,8 @@ def render(spec, style):
         lines.insert(pos, text)
     exp = {"cells": expected, "data_cols": data_cols, "var": var, "has_obs": d.get("obs") is not None, "has_pit": d.get("pit") is not None,
            "thresholds": list(d.get("thresholds") or []), "quantiles": list(d.get("quantiles") or []), "members": d.get("members", 0) if d.get("ens") is not None else 0,
-           "others": sorted((d.get("other") or {}).keys()), "by_id": id_col != "none", "ncoord": ncoord}
+           "others": sorted((d.get("other") or {}).keys()), "by_id": id_col != "none", "ncoord": ncoord,
+           "member_ids": member_ids if d.get("ens") is not None else []}
     return "\n".join(lines) + "\n", exp
 
 
@@ -323,6 +328,12 @@ def check_file(case, ctx):
     if inp.num_members != exp["members"]:
         ctx.fail("C09/members", sub, "%d ensemble members, header has %d" % (inp.num_members, exp["members"]))
         return
+    if exp["members"] and [int(m) for m in inp.members] != sorted(exp["member_ids"]):
+        ctx.fail("C09/members", sub, "member numbers %r, header has %r" % (list(inp.members), exp["member_ids"]))
+        return
+    m_pos = dict((m, r) for r, m in enumerate(sorted(exp["member_ids"])))
+    if exp["member_ids"] and exp["member_ids"] != list(range(len(exp["member_ids"]))):
+        ctx.label("members-not-0..n-1")
     if sorted(f for f in inp.other_fields if f != "pit") != exp["others"]:   # both readers also list pit among the other fields
         ctx.fail("C09/other-fields", sub, "other fields %r, header has %r" % (sorted(inp.other_fields), exp["others"]))
         return
@@ -349,7 +360,7 @@ def check_file(case, ctx):
                     elif kind == "qs":
                         g = inp.quantile_scores[a, b, j, q_pos[round(float(d["quantiles"][k]), 9)]]
                     elif kind == "ens":
-                        g = inp.ensemble[a, b, j, k]
+                        g = inp.ensemble[a, b, j, m_pos[exp["member_ids"][k]]]
                     else:
                         g = inp.other_score(k)[a, b, j]
                     e = None if cell is None else cell["vals"][(kind, k)]
